@@ -11,7 +11,7 @@ file runs beside it as a cross-check, exactly as in vlib/props/c08.py.
 
 Histories (every sample-granular container that opens SFM_RDWR, virtual I/O and descriptor routes, 1-3 channels):
   gap-w      open w; write k; seek k+g (plain SEEK_SET); write m; close; re-open r; read everything
-  gap-rw     open rw (empty); write k; seek k+g with SFM_WRITE; write m; read everything through the read pointer; probes; overwrite
+  gap-rw     open rw (empty); write k; seek k+g with SFM_WRITE; probes (the read pointer must not move); write m; read everything through the read pointer; probes; overwrite
              one frame INSIDE the gap; read it; close; re-open r; read everything
   gap-end    pre-populated file; open rw; SEEK_END|SFM_WRITE +g; write m; read from 0; close; re-open r; read everything
   gap-idle   open rw on a pre-populated file; seek past the end; close without writing: nothing may change
@@ -196,8 +196,10 @@ def gen(rng, f, ch, ty, lowzero, route, kind):
         if k:
             H.write(h, k)
         H.seek(h, k + g, 0x20, k + g)
+        H.probes(h)                              # the read pointer has not moved
         H.write(h, m)
         H.info(h)
+        H.probes(h)
         H.seek(h, 0, 0x10, 0)
         H.read(h, k + g + m + 2)
         H.probes(h)
@@ -217,12 +219,15 @@ def gen(rng, f, ch, ty, lowzero, route, kind):
         if kind == "gap-idle":
             H.seek(h, g, 0x22, k + g)
             H.info(h)
+            H.probes(h)
+            H.read(h, k + 1)                     # through the untouched read pointer: the whole old file
             return H.finish(h)
         H.seek(h, g, 0x22, k + g)
+        H.probes(h)
         H.write(h, m)
         H.info(h)
-        H.seek(h, 0, 0x10, 0)
-        H.read(h, k + g + m + 2)
+        H.read(h, k + g + m + 2)                 # the read pointer is still at 0
+        H.probes(h)
         return H.finish(h)
     if kind == "ext-trunc":
         h = H.opn("rw")
